@@ -33,7 +33,12 @@ def cval(v):
         return "(VTuple [%s])" % ";".join(cval(x) for x in v)
     if type(v).__name__ == "Script" and type(v).__module__ == "btc_hd_wallet.script":
         return '(VObj "Script" [%s])' % cval(v.cmds)
+    if type(v).__name__ == "Bip32Path" and type(v).__module__ == "btc_hd_wallet.wallet_utils":
+        return '(VObj "Bip32Path" [%s])' % ";".join(cval(getattr(v, f)) for f in PATH_FIELDS)
     raise TypeError("value outside MiniPy: %r" % (v,))
+
+
+PATH_FIELDS = ("purpose", "coin_type", "account", "chain", "addr_index", "private")
 
 
 def jval(v):
@@ -52,6 +57,8 @@ def jval(v):
         return {"tuple": [jval(x) for x in v]}
     if type(v).__name__ == "Script":
         return {"script": jval(v.cmds)}
+    if type(v).__name__ == "Bip32Path":
+        return {"bip32path": [jval(getattr(v, f)) for f in PATH_FIELDS]}
     raise TypeError(v)
 
 
@@ -72,6 +79,9 @@ def unj(j):
         if "script" in j:
             from btc_hd_wallet.script import Script
             return Script(unj(j["script"]))
+        if "bip32path" in j:
+            from btc_hd_wallet.wallet_utils import Bip32Path
+            return Bip32Path(*[unj(x) for x in j["bip32path"]])
     return j
 
 
@@ -201,6 +211,53 @@ def gen_args(rng, qual, tier):
             v = rng.choice([rng.randrange(0, 2 ** 31), rng.randrange(2 ** 31, 2 ** 32), rng.randrange(2 ** 32, 2 ** 40), rng.randrange(0, 100)])
             ss.append(str(v) + rng.choice(["", "'", "h"]))
         out += [(x,) for x in ss]
+    elif qual.startswith("wallet_utils.") and qual != "wallet_utils.Bip32Path.is_hardened" and qual != "wallet_utils.Bip32Path.is_private":
+        from btc_hd_wallet.wallet_utils import Bip32Path
+        H = 2 ** 31
+        def ridx():
+            return rng.choice([0, 1, 44, H, H + 44, H - 1, 2 ** 32 - 1, rng.randrange(0, H), rng.randrange(H, 2 ** 32)])
+        paths = [Bip32Path(), Bip32Path(private=False)]
+        for _ in range(n):
+            k = rng.randrange(0, 6)
+            paths.append(Bip32Path(*[ridx() for _ in range(k)], **{"private": rng.random() < 0.7}))
+        paths += [Bip32Path(True, False), Bip32Path(0, 0, 0, 0, 0), Bip32Path(H, H, H, 0, 2 ** 32 - 1, False), Bip32Path(-1), Bip32Path(2 ** 40, -5)]
+        name = qual.split(".")[-1]
+        if name == "list_get":
+            for _ in range(n):
+                l = [rng.choice(["m", "44'", "", "0", 5, None]) for _ in range(rng.randrange(0, 8))]
+                out.append((l, rng.randrange(-9, 9)))
+            out += [([], 0), ([], -1), (["a"], 1), (["a"], -1), (["a"], -2), (["a", "b"], 1), ("abc", 1), ("abc", 3), ((1, 2), 1), ((1, 2), 2), ([1], True), ([1, 2], None)]
+        elif name in ("_to_list", "to_list", "integrity_check", "m", "__repr__"):
+            out += [(q,) for q in paths]
+        elif name == "repr_hardened":
+            for _ in range(n):
+                out.append((rng.choice(paths), ridx()))
+            out += [(paths[0], v) for v in (0, H - 1, H, H + 1, 2 ** 32 - 1, 2 ** 32, -1, -H, 2 ** 40, True)]
+        elif name == "__init__":
+            for _ in range(n):
+                k = rng.randrange(0, 6)
+                out.append(tuple([ridx() for _ in range(k)] + [None] * (5 - k) + [rng.random() < 0.5]))
+            for _ in range(n):
+                out.append(tuple([rng.choice([None, None, ridx(), "5", True, b"", -3]) for _ in range(5)] + [rng.choice([True, False])]))
+            out += [(None, 1, None, None, None, True), (1, None, 2, None, None, True), (None, None, None, None, 7, False), (1, 2, 3, 4, "5", True),
+                    ("1", None, None, None, None, True), (None, "1", None, None, None, True), (1, "x", None, 3, None, True), (True, False, None, None, None, True),
+                    (0, 0, 0, 0, 0, False), (1, 2, None, None, None, None)]
+        elif name == "parse":
+            ss = ["m", "M", "m/", "M/", "/", "", "m/0", "m/44'/0'/0'/0/0", "M/44h/0h/0h/1/5", "m/44'/0h/0'", "x/1", "mm/1", "m /1", " m/1", "m/1/2/3/4/5/6", "m/1/2/3/4/5/6/x",
+                  "m/1//2", "m//1", "m/1/", "m/1/2/3/4/5/", "m/1/2/3/4/5//", "m/-1", "m/-1'", "m/ -1'", "m/+1", "m/ 1", "m/1 ", "m/1_0", "m/2147483648'", "m/2147483647'",
+                  "m/4294967295", "m/4294967296", "m/a", "m/'", "m/h", "m/1/'", "m/0x10", "m/٣", "m/1\t", "m/1/2/3/4/x", "m/1/2/3/4/5/x", "m/1/x/3", "M/0'", "m/00/01'",
+                  "m/ -1", "m/\n-5'", "m/-0'", "m/-0", "m\\1", "m/1/2/3/4/5/6/7/8/9/10/11/12", "m/1'/2'/3'/4'/5'/6'"]
+            for _ in range(2 * n):
+                k = rng.randrange(0, 8)
+                comps = []
+                for _ in range(k):
+                    v = rng.choice([rng.randrange(0, H), rng.randrange(0, 100), rng.randrange(H, 2 ** 32), rng.randrange(2 ** 32, 2 ** 34), -rng.randrange(1, 50)])
+                    c = str(v) + rng.choice(["", "", "'", "h"])
+                    if rng.random() < 0.08:
+                        c = rng.choice(["", " " + c, c + " ", "x", "+" + c, "0" + c, c + "'"])
+                    comps.append(c)
+                ss.append("/".join([rng.choice(["m", "m", "M", "n"])] + comps))
+            out += [(x,) for x in ss]
     elif qual in ("__main__.address_index", "__main__.account_index"):
         ss = ["0", "1", "-1", "2147483646", "2147483647", "2147483648", "4294967294", "4294967295", "4294967296", " 5", "5 ", "+7", "1_000", "0x10", "", "abc",
               "1.0", "-0", "00", "9" * 25, "5\x1f", "\t9\n", "１２", "1e3"]
@@ -303,7 +360,12 @@ class PySemProp(BaseProp):
         m = importlib.import_module("btc_hd_wallet." + parts[0])
         target = m
         for part in parts[1:]:
-            target = getattr(target, part)          # module function, static method, or plain function of a class (self passed first)
+            if part == "__init__":
+                break                                # the constructor: the class itself is called
+            nxt = getattr(target, part)
+            if isinstance(nxt, property):
+                nxt = nxt.fget
+            target = nxt          # module function, static / class method, property getter, or plain function of a class (self passed first)
         args = [unj(a) for a in case["args"]]
         rec = Recorder()
         with rec.installed():
